@@ -26,10 +26,19 @@ package paillier
 //@   ensures pkok(result)
 //@   ensures[C12] pkvals(result) && natval(result.nNat) == natval(n) && fresh(result)
 
+// Size gates on restored / received key material (C15, C12): an accepted modulus has exactly 2048 bits and is odd,
+// an accepted prime has exactly 1024 bits (true length, not the announced encoding width) and is 3 mod 4.
 //@ func ValidateN
 //@   nopanic[C05]
 //@   modifies nothing
 //@   allocates
+//@   ensures[C15,C12] result == nil ==> (n != nil && nbits(natval(n)) == 2048)
+
+//@ func ValidatePrime
+//@   nopanic[C05]
+//@   modifies nothing
+//@   allocates
+//@   ensures[C15,C12] result == nil ==> (p != nil && nbits(natval(p)) == 1024)
 
 //@ func (PublicKey).ValidateCiphertexts
 //@   nopanic[C05]
